@@ -295,6 +295,8 @@ theorem resolveItems_wf : ∀ (items : Items) (types : List Ty) (rows : RRows), 
   | .nil, _, rows, h => by simp [resolveItems] at h; subst h; rfl
   | .one c rest, types, rows, h => by
     simp only [resolveItems] at h
+    split at h
+    · contradiction
     obtain ⟨row, hrow, h2⟩ := bind_ok _ _ _ h
     obtain ⟨rs, hrs, h3⟩ := bind_ok _ _ _ h2
     injection h3 with h3; subst h3
@@ -408,6 +410,8 @@ theorem in_union_rows : ∀ (items : Items) (T : Ty) (cs : List Comp) (rows : RR
     simp only [Items.comps, Option.map_eq_some_iff] at hc
     obtain ⟨cs', hcs', rfl⟩ := hc
     simp only [resolveItems] at hr
+    split at hr
+    · contradiction
     obtain ⟨row, hrow, h2⟩ := bind_ok _ _ _ hr
     obtain ⟨rs, hrs, h3⟩ := bind_ok _ _ _ h2
     injection h3 with h3; subst h3
@@ -430,12 +434,14 @@ theorem run_append (o : Obj) (pre post : List Call) : run o (pre ++ post) = run 
   | nil => rfl
   | cons c cs ih => simp [run, state, ih]
 
-theorem resolveTuplesV_wf : ∀ (items : Items) (fixed : List Ty) (elemT : Ty) (rows : RRows),
-    resolveTuplesV items fixed elemT = .ok rows → rowsWf rows = true
-  | .nil, _, _, rows, h => by simp [resolveTuplesV] at h; subst h; rfl
-  | .one _ _, _, _, rows, h => by simp [resolveTuplesV] at h
-  | .tuple cs rest, fixed, elemT, rows, h => by
-    simp only [resolveTuplesV] at h
+theorem resolveTuplesVFrom_wf : ∀ (items : Items) (fixed : List Ty) (elemT : Ty) (i : Nat) (rows : RRows),
+    resolveTuplesVFrom items fixed elemT i = .ok rows → rowsWf rows = true
+  | .nil, _, _, _, rows, h => by simp [resolveTuplesVFrom] at h; subst h; rfl
+  | .one _ _, _, _, _, rows, h => by
+    simp only [resolveTuplesVFrom] at h
+    split at h <;> contradiction
+  | .tuple cs rest, fixed, elemT, i, rows, h => by
+    simp only [resolveTuplesVFrom] at h
     obtain ⟨row, hrow, h2⟩ := bind_ok _ _ _ h
     obtain ⟨rs, hrs, h3⟩ := bind_ok _ _ _ h2
     injection h3 with h3; subst h3
@@ -443,7 +449,11 @@ theorem resolveTuplesV_wf : ∀ (items : Items) (fixed : List Ty) (elemT : Ty) (
       split at hrow
       · contradiction
       · exact toExprFrom_wf cs _ 0 row hrow
-    simp [rowsWf, hw, resolveTuplesV_wf rest fixed elemT rs hrs]
+    simp [rowsWf, hw, resolveTuplesVFrom_wf rest fixed elemT (i + 1) rs hrs]
+
+theorem resolveTuplesV_wf (items : Items) (fixed : List Ty) (elemT : Ty) (rows : RRows)
+    (h : resolveTuplesV items fixed elemT = .ok rows) : rowsWf rows = true :=
+  resolveTuplesVFrom_wf items fixed elemT 0 rows h
 
 /-! ## Shared expression objects -/
 
@@ -542,5 +552,27 @@ theorem runS_append (fuel : Nat) (h : Heap) (pre post : List SStep) :
   induction pre generalizing h with
   | nil => rfl
   | cons c cs ih => simp [runS, stateS, ih]
+
+/-! ## Union over rows of any width -/
+
+def _root_.C18M.RRows.toList : RRows → List RRow
+  | .nil => []
+  | .cons r rs => r :: rs.toList
+
+/-- `InExpr.Eval` (expr.go:110-130) over rows of any width: rows of another length are skipped, the others are tried in order. -/
+theorem evalRows_union : ∀ (rows : RRows) (input : List (Option Val)),
+    evalRows rows input =
+      orRes (((RRows.toList rows).filter (fun r => r.len == input.length)).map (fun r => evalRow r input))
+  | .nil, input => by simp [evalRows, RRows.toList, orRes]
+  | .cons row rest, input => by
+    have ih := evalRows_union rest input
+    simp only [evalRows, RRows.toList]
+    by_cases h : input.length = row.len
+    · have h' : (row.len == input.length) = true := by simp [h]
+      simp [h, List.filter, orRes, ih]
+    · have h' : (row.len == input.length) = false := by
+        apply beq_eq_false_iff_ne.mpr
+        exact fun e => h e.symm
+      simp [h, h', List.filter, ih]
 
 end C18L
